@@ -23,7 +23,8 @@ func TestVerif(t *testing.T) {
 			"quick: every sequence of 1..2 entries over full and of 1..3 entries over core, each for the three wd states; 1..4 entries over rootlinks on an empty wd. " +
 			"thorough: 1..3 over full (empty wd), 1..2 over full and 1..3 over core (files, uplink), 1..4 over mini (three states), 1..5 over rootlinks and 1..5 over chain (empty wd). " +
 			"Besides the picture: when the sequence without its last entry was accepted on its own and, on the file system that run left behind, the directory that receives the last entry's name resolves (symbolic links followed by the harness's own resolver) outside wd, Push must fail; and an accepted archive must not leave a file from outside wd hard-linked inside wd. " +
-			"When an accepted archive leaves symbolic links in wd that, really followed, name a place outside wd (every target being lexically inside), a second Push into the same directory with a new store is made for each such link l and each of {named blob titled l, l/zz, l/d/zz; one-entry archive titled l, l/zz}, with default options and with DisableOverwrite: the picture must still be unchanged (these pushes are counted in evaluations). " +
+			"When an accepted archive leaves symbolic links in wd that, really followed, name a place outside wd (every target being lexically inside), a second Push into the same directory with a new store is made for each such link l and each of {named blob titled l, l/zz, l/d/zz; one-entry archive titled l, l/zz}, with default options and with DisableOverwrite: the picture must still be unchanged (these pushes are counted in evaluations); and, for l/zz and l/d/zz, a history on one store: the named push with bytes that fail verification, then the archive, then the named push again with the right bytes. " +
+			"The replace family also holds a directory entry with the read-only mode 0555. " +
 			"Not judged (counted where it occurs): absolute entry names accepted without touching the outside; the mere existence of accepted symbolic links whose target resolves outside wd; names inside wd but outside the title directory. " +
 			"evaluations = Push calls judged; non-trivial = titles that point outside wd, and tar sequences with a link entry, a '..' name or an absolute name (distinct ones are recorded for sequences of length <= 2, longer ones are counted in nontrivial_sequences).",
 		Assumptions: []string{
